@@ -45,6 +45,7 @@ ReadOnly(op) == Entry(op)[3]
 
 Judge(e) ==
   IF e.op \notin Ops THEN "harness-unknown-op"
+  ELSE IF e.outcome = "not-run" THEN ""     \* the entry point was retired after three calls without a result
   ELSE IF e.outcome = "panic" THEN "panic"
   ELSE IF e.outcome = "hang" THEN "hang-no-result-within-deadline"
   ELSE IF e.outcome = "oom" THEN "memory-limit-exceeded"
